@@ -5,6 +5,7 @@
    implementation by the oracle of harness/oracles.py. *)
 From Coq Require Import List Arith.
 Require Import SP.Model.Sched SP.Proofs.SchedWalk SP.Proofs.SchedFinal.
+Require Import SP.Model.Alap SP.Proofs.AlapProofs.
 
 Theorem C06_frame : forall p t f e, leaf_dates (schedule p) t = Some (f, e) ->
   (t_need (task_of p t) = 0 -> f = e) /\
@@ -15,3 +16,15 @@ Theorem C06_frame : forall p t f e, leaf_dates (schedule p) t = Some (f, e) ->
      (forall x, In x (bookings (schedule p)) -> b_task x = t -> f <= b_slot x < e)).
 Proof. exact frame. Qed.
 Print Assumptions C06_frame.
+
+(* ---- backward (ALAP) mode: the project record is read backwards (Model/Alap.v: t_deps = successor edges,
+   t_pin = own end, t_lb = earliest deadline of the enclosing containers, n = p_upper slots) and the schedule
+   is the mirror image of the forward schedule of the mirrored project *)
+Theorem C06_alap : forall p t f e, alap_leaf_dates p t = Some (f, e) ->
+  (t_need (task_of p t) = 0 -> f = e) /\
+  (t_need (task_of p t) <> 0 ->
+     f < e /\
+     (forall r, In r (t_team (task_of p t)) -> In (mk t r f) (alap_bookings p) /\ In (mk t r (e - 1)) (alap_bookings p)) /\
+     (forall x, In x (alap_bookings p) -> b_task x = t -> f <= b_slot x < e)).
+Proof. exact alap_frame. Qed.
+Print Assumptions C06_alap.
